@@ -268,6 +268,7 @@ namespace sim
       std::uint32_t asan_hits = 0;
       std::uint32_t last_end = NOPOS;  // cursor offset of the latest event with a cursor (for apply0 veto)
       std::uint32_t cur_atom = 0;      // atom selected by the innermost node / mini
+      std::size_t mem_end_off = ~std::size_t( 0 );  // offset of the memory input's current end (lowered by limit_bytes)
       // reader state
       std::size_t delivered = 0;
       std::size_t read_idx = 0;
@@ -289,6 +290,7 @@ namespace sim
          asan_hits = 0;
          last_end = NOPOS;
          cur_atom = 0;
+         mem_end_off = ~std::size_t( 0 );
          delivered = 0;
          read_idx = 0;
          reads_after_eof = 0;
